@@ -2,7 +2,7 @@ import RoaringModel.Mirror32
 import RoaringModel.Lemmas.BitmapMut2
 import RoaringModel.Lemmas.BIterLemmas
 import RoaringModel.Lemmas.BStoreBasic
-import RoaringModel.Lemmas.SafeLemmas
+import RoaringModel.Lemmas.BitmapQuery
 /-!
 # The mirrored definitions of `Mirror32.lean` equal the first model (`…_mirror_eq`)
 -/
@@ -171,12 +171,31 @@ end BIter
 
 namespace BStore
 
+private theorem popcount_le' : ∀ (k w : Nat), w < 2 ^ k → popcount w ≤ k
+  | 0, w, h => by
+    have : w = 0 := by simpa using h
+    subst this; simp [popcount_zero]
+  | k+1, w, h => by
+    rw [popcount_step]
+    have : w / 2 < 2 ^ k := by rw [Nat.pow_succ] at h; omega
+    have := popcount_le' k (w / 2) this
+    omega
+
+private theorem popSum_le' (bits : List Nat) (h : ∀ w ∈ bits, w < 2^64) : popSum bits ≤ 64 * bits.length := by
+  induction bits with
+  | nil => simp [BIter.popSum_nil]
+  | cons w ws ih =>
+    have h1 := popcount_le' 64 w (h w (List.mem_cons_self ..))
+    have h2 := ih (fun x hx => h x (List.mem_cons_of_mem _ hx))
+    rw [BIter.popSum_cons, List.length_cons]; omega
+
 /-- what the value iterator of a bitset yields = `to_array_store` -/
 theorem iterAll_eq (b : BStore) (hb : b.Inv) : b.iterAll = b.toArray := by
   unfold iterAll toArray
   rw [BIter.drainFuel_eq 65537 _ (BIter.new_inv b.bits hb.words), BIter.new_rem b.bits hb.length hb.words]
   rw [BIter.new_rem b.bits hb.length hb.words, BIter.length_toArrayFrom 0 b.bits hb.words]
-  have := popSum_le b.bits hb.length hb.words
+  have := popSum_le' b.bits hb.words
+  rw [hb.length] at this
   omega
 
 end BStore
